@@ -26,7 +26,7 @@ PYOP = {"add": lambda x, y: x + y, "sub": lambda x, y: x - y, "mul": lambda x, y
 
 
 def shards(tier, seed, scale=1.0):
-    return common.rand_shards(ID, tier, seed, scale, 3200, 80000)
+    return common.rand_shards(ID, tier, seed, scale, 8000, 120000)
 
 
 def cases(desc):
@@ -98,6 +98,7 @@ def gen_case(rng):
         c["form"] = form
     elif what == 'reduce':
         c["f"] = rng.choice(['mean', 'std', 'var', 'median', 'sum'])
+        c["axis_none"] = rng.random() < 0.2       # ds.mean(axis=None): every variable reduced to a scalar
     elif what == 'take_axis':
         c["labels"] = [lab[rng.randrange(n)] for _ in range(rng.randint(1, 4))]
         c["position"] = rng.random() < 0.3
@@ -231,9 +232,14 @@ def check(case, ctx):
             return v.take(sub, indexing='position' if pos else 'label')
     elif what == 'reduce':
         f = case["f"]
-        label = "ds.%s(axis=%r)" % (f, axis)
-        fn = lambda: getattr(ds, f)(axis=axis)
-        expected = lambda v: getattr(v, f)(axis=d) if d in v.dims else v
+        if case.get("axis_none"):
+            label = "ds.%s(axis=None)" % f
+            fn = lambda: getattr(ds, f)(axis=None)
+            expected = lambda v: getattr(v, f)(axis=None)
+        else:
+            label = "ds.%s(axis=%r)" % (f, axis)
+            fn = lambda: getattr(ds, f)(axis=axis)
+            expected = lambda v: getattr(v, f)(axis=d) if d in v.dims else v
     elif what == 'take_axis':
         labs = case["labels"]
         attrs_carried = True
@@ -339,7 +345,7 @@ def check(case, ctx):
         ctx.v(ID, "keys", "%s: variables %r, expected %r" % (label, sorted(res.keys()), sorted(exp.keys())))
         return klass
     for k in exp:
-        lacks = what not in ('arith', 'arith_scalar', 'neg', 'stack_ds', 'concat_ds') and d not in vars_[k]["dims"] and \
+        lacks = what not in ('arith', 'arith_scalar', 'neg', 'stack_ds', 'concat_ds') and not case.get("axis_none") and d not in vars_[k]["dims"] and \
             not (what in ('take', 'loc', 'sel') and any(q in vars_[k]["dims"] for q in case["idx"]))
         if not cmp_var(ctx, label, k, dict.__getitem__(res, k), exp[k], lacks, **tol):
             break
